@@ -1,2 +1,151 @@
-(* C13 (under construction) *)
+(* C13 — Login plugin messages are answered exactly once by the matching consumer.
+   Only statements and `exact`; the proofs are in Proofs/C13.v.
+
+   Model/LoginInbound.v has two variants: Impl (the code as it is) and Spec (the completion
+   callback is taken out of the struct inside the critical section that decides to run it).
+   Atomic actions = the critical sections and unlocked effects of SendLoginPluginMessage
+   (s_alloc, s_register, s_write), handleLoginPluginResponse (r_lookup, r_consume, r_check,
+   r_complete), loginEventFired (f_fire, f_flush) and clearOnAllMessagesHandled.  "All schedules" =
+   Base.Conc.run over ANY threads made of these actions (on any local slots, in any order, sends
+   from any number of goroutines, responses even from several) and ANY schedule.  Events: EReg id k
+   (consumer k registered under id), EResp id a (a client response for id with argument a entered
+   the handler), ECons id k a (k invoked with a), EBackend id bid a (LoginPluginResponse{bid, a}
+   written to the backend by the Forge relay consumer), EFire, ECompletion. *)
+From Coq Require Import List ZArith NArith Bool Arith.
 From Verif Require Import Base.Conc Model.LoginInbound Proofs.C13.
+Import ListNotations.
+
+(* "delivered ... at most once": for both variants and every schedule, the consumer invocations for
+   a message id never outnumber the registrations under that id (ids come from an atomic counter,
+   so each id is registered once and hence answered to its consumer at most once). *)
+Theorem C13_consumer_at_most_once :
+  forall v pok n (ts : list (@thread state event)) sched id,
+  (forall a, In a (concat ts) -> is_action v a) ->
+  let evs := events (run ts sched (init pok n)) in
+  count_cons id evs <= count_reg id evs.
+Proof. exact consumer_at_most_once_all. Qed.
+Print Assumptions C13_consumer_at_most_once.
+
+(* "delivered only to the consumer registered for that message id": whoever is invoked for id was
+   registered under id, and receives exactly the argument of a client response for id. *)
+Theorem C13_id_correlation :
+  forall v pok n (ts : list (@thread state event)) sched id k a,
+  (forall a, In a (concat ts) -> is_action v a) ->
+  let evs := events (run ts sched (init pok n)) in
+  In (ECons id k a) evs -> In (EReg id k) evs /\ In (EResp id a) evs.
+Proof. exact id_correlation_all. Qed.
+Print Assumptions C13_id_correlation.
+
+(* "responses with unknown ids are ignored" (whole call, both variants): nothing is invoked, written
+   or completed and the connection's fields are unchanged. *)
+Theorem C13_unknown_ignored :
+  forall v s id ok data,
+  locals s <> [] -> mfind id (outstanding s) = None ->
+  let r := step_op v s (OResponse id ok data) in
+  snd r = [EResp id (resp_arg ok data)]
+  /\ seqc (fst r) = seqc s /\ outstanding (fst r) = outstanding s /\ queue (fst r) = queue s
+  /\ fired (fst r) = fired s /\ on_all (fst r) = on_all s /\ locals (fst r) <> [].
+Proof. exact unknown_ignored_seq. Qed.
+Print Assumptions C13_unknown_ignored.
+
+(* "backend Forge login messages relayed through the client are each answered to the backend exactly
+   once with the client's reply for that message".  Every schedule: at most one backend write per
+   relayed message, it carries the backend's message id and the argument of a client response for
+   the id the relay sent to the client ... *)
+Theorem C13_relay_at_most_once :
+  forall v pok n (ts : list (@thread state event)) sched id,
+  (forall a, In a (concat ts) -> is_action v a) ->
+  let evs := events (run ts sched (init pok n)) in
+  count_backend id evs <= count_reg id evs
+  /\ forall bid a, In (EBackend id bid a) evs -> In (EReg id (CRelay bid)) evs /\ In (EResp id a) evs.
+Proof. exact relay_all. Qed.
+Print Assumptions C13_relay_at_most_once.
+
+(* ... and a whole response call for an outstanding id invokes its consumer exactly once with the
+   reply; for a relay consumer it writes exactly one response with that reply to the backend.  The
+   same statement says when the completion runs in Spec: iff nothing is outstanding after the
+   consumer ran and a callback is kept, which is then dropped. *)
+Theorem C13_answered_exactly_once :
+  forall s id k ok data,
+  locals s <> [] -> mfind id (outstanding s) = Some k ->
+  let r := step_op Spec s (OResponse id ok data) in
+  let done := is_nil (outstanding (fst r)) in
+  fired (fst r) = fired s
+  /\ on_all (fst r) = (if done then false else on_all s)
+  /\ count_completion (snd r) = (if done && on_all s then 1 else 0)
+  /\ count_cons id (snd r) = 1
+  /\ In (ECons id k (resp_arg ok data)) (snd r)
+  /\ (forall bid, k = CRelay bid -> In (EBackend id bid (resp_arg ok data)) (snd r)
+                                    /\ count_backend id (snd r) = 1)
+  /\ locals (fst r) <> [] /\ proto_ok (fst r) = proto_ok s.
+Proof. exact response_hit_seq. Qed.
+Print Assumptions C13_answered_exactly_once.
+
+(* "The login-completion step runs exactly once ..." — Spec, every schedule: never more often than
+   the pre-login event fired. *)
+Theorem C13_completion_at_most_once_spec :
+  forall pok n (ts : list (@thread state event)) sched,
+  (forall a, In a (concat ts) -> is_action Spec a) ->
+  let evs := events (run ts sched (init pok n)) in
+  count_completion evs <= count_fire evs.
+Proof. exact completion_at_most_once_all. Qed.
+Print Assumptions C13_completion_at_most_once_spec.
+
+(* "... after the pre-login event and after every outstanding message has been answered" — Spec,
+   every history of whole calls in which the event fires at most once, the client answers only
+   after it and the callback is not cleared ([adm]): the completion has run at most once; not at
+   all before the event; exactly once as soon as the event has fired and nothing is outstanding;
+   and while something is outstanding and it has not run, the callback is still kept. *)
+Theorem C13_completion_exactly_once_spec :
+  forall pok n os,
+  0 < n -> adm false os = true ->
+  let r := run_ops Spec (init pok n) os in
+  let c := count_completion (concat (snd r)) in
+  c <= 1
+  /\ (fired (fst r) = false -> c = 0)
+  /\ (fired (fst r) = true -> outstanding (fst r) = [] -> c = 1)
+  /\ (fired (fst r) = true -> outstanding (fst r) <> [] -> c = 0 -> on_all (fst r) = true).
+Proof. exact completion_exactly_once_spec. Qed.
+Print Assumptions C13_completion_exactly_once_spec.
+
+(* REFUTED for the code as it is (finding C13-1): one fire, two completions.  The event fires with
+   nothing queued (the completion runs), then a handler sends a message and the client answers it:
+   the callback was never cleared and runs again.  Spec runs it once on the same history. *)
+Theorem C13_completion_exactly_once_impl_refuted :
+  let h := [OFire; OSend (CPlain 1) [1%N]; OResponse 1 true []] in
+  let evs := concat (snd (run_ops Impl (init true 1) h)) in
+  count_fire evs = 1 /\ count_completion evs = 2
+  /\ count_completion (concat (snd (run_ops Spec (init true 1) h))) = 1.
+Proof. exact impl_completion_refuted_witness. Qed.
+Print Assumptions C13_completion_exactly_once_impl_refuted.
+
+(* ---------- the premises are met ---------- *)
+
+(* One send, one response for its id and the event, as three goroutines: over ALL 1260 interleavings
+   of their 3+4+2 atomic steps (Spec) the consumer ran at most once and the completion at most
+   once; schedules in which both happened exist. *)
+Example C13_nonvacuous_all_schedules :
+  let ts : list (@thread state event) :=
+    [send_thread 0 (CPlain 1) [1%N]; response_thread Spec 1 1 (Some []); fire_thread Spec 2] in
+  (forall a, In a (concat ts) -> is_action Spec a) /\
+  let outs_ := outcomes ts (init true 3) in
+  forallb (fun r => (count_cons 1 (events r) <=? 1) && (count_completion (events r) <=? 1)
+                    && (count_reg 1 (events r) =? 1) && (count_fire (events r) =? 1)) outs_
+  && existsb (fun r => (count_cons 1 (events r) =? 1) && (count_completion (events r) =? 1)) outs_
+  && (length outs_ =? 1260) = true.
+Proof. exact (conj (nv_threads_actions Spec) nv_check_ok). Qed.
+
+(* An admissible history with a consumer that sends two more messages, a relayed backend message, a
+   failed, a duplicate and an unknown response: everything answered, one completion, the backend got
+   the client's reply for the relayed message. *)
+Example C13_nonvacuous_history :
+  let h := [OSend (CSendMore 1 2) [1%N]; ORelay 7 []; OFire;
+            OResponse 2 true [9%N]; OResponse 1 false []; OResponse 3 true []; OResponse 3 true [];
+            OResponse 4 true [5%N]; OResponse 99 true []] in
+  adm false h = true
+  /\ let r := run_ops Spec (init true 1) h in
+     fired (fst r) = true /\ outstanding (fst r) = []
+     /\ count_completion (concat (snd r)) = 1
+     /\ In (EBackend 2 7 (Some [9%N])) (concat (snd r))
+     /\ count_cons 3 (concat (snd r)) = 1.
+Proof. exact nv_history_ok. Qed.
